@@ -31,15 +31,24 @@ Example C28_witness_totp_cap :
     = [Failed; Failed; Failed; Refused; Refused; Refused].
 Proof. vm_compute. repeat split; reflexivity. Qed.
 
-(* C28_locked_until_unlock_partial / _outside_known_class: a lock after two failures,
-   consulted three times up to its unlock instant (sub-second instants included) *)
+(* C28_locked_until_unlock: a wrong password arms a lock (3rd failure: 3 s), which is then
+   consulted three times up to and including its unlock instant (sub-second instant included) *)
 Example C28_witness_locked :
-  let s := mk (Locked 2 (t 86400) (t 503)) PPassword 0 in
+  let s := mk (Unlocked 2 (t 86400)) PPassword 0 in
+  let e := Ev (t 500) None true in
   let l := [Ev (t 502) None true; Ev (t 502 + 500000000) (Some 0) false; Ev (t 503) None true] in
-  st s = Locked 2 (t 86400) (t 503) /\ t 503 <= t 86400 /\
-  forallb (fun e => (ev_ct e <=? t 503) && quiet_for (last_exp s) e) l = true /\
-  length (exec s l) = 3%nat.
-Proof. vm_compute. repeat split; try reflexivity; discriminate. Qed.
+  attempt s e = (mk (Locked 3 (t 86400) (t 503)) PPassword 0, Failed) /\
+  forallb (fun e2 => (ev_ct e2 <=? t 503) && quiet_for 0 e2) l = true /\
+  map (fun ob => fst (fst ob)) (exec (fst (attempt s e)) l) = [Refused; Refused; Refused].
+Proof. vm_compute. repeat split; reflexivity. Qed.
+
+(* C28_locked_state_stays_locked: a lock whose reset_at an administrator expiry pulled in *)
+Example C28_witness_capped_lock :
+  let s := mk (Locked 2 (t 400) (t 503)) PPassword (t 400) in
+  let l := [Ev (t 399) (Some (t 400)) true; Ev (t 400) None false] in
+  forallb (fun e => (ev_ct e <=? N.min (t 503) (t 400)) && quiet_for (last_exp s) e) l = true /\
+  length (exec s l) = 2%nat.
+Proof. vm_compute. split; reflexivity. Qed.
 
 (* C28_never_shortens: failure (count 1, unlock 501 s), a right credential at 502 s
    (Passed, lock becomes Unlocked), a wrong one at 503 s (count 2, unlock 504 s > 501 s) *)
@@ -67,25 +76,35 @@ Example C28_witness_admin_reset :
   reset_cond (st s) (last_exp s) e = true.
 Proof. vm_compute. split; reflexivity. Qed.
 
-(* C28_refuted as a checked case: the model's own output on the refuting history is in
-   the known class (full sentence fails, partial form and all other predicates hold) *)
-Definition refuting_history : list ev :=
+(* the day-end history of C28_prefix_refuted: the FIXED model keeps the credential refused up
+   to and including the unlock instant (reset_at is pushed out to unlock_at) and the case
+   passes pcheck; the PRE-FIX model let the right password through at the unlock instant *)
+Definition dayend_history : list ev :=
   [Ev (t 86380) None true; Ev (t 86382) None true; Ev (t 86384) None true;
-   Ev (t 86398) None true; Ev (t 86401) None false].
-Example C28_witness_refuted :
-  let c := CEvents 0 PPassword refuting_history (exec (new PPassword) refuting_history) in
-  agree c = true /\ pcheck c = false /\ known c = true /\
-  nth 3 (exec (new PPassword) refuting_history) (Passed, Init, 0)
-    = (Failed, Locked 4 (t 86400) (t 86401), 0) /\
-  nth 4 (exec (new PPassword) refuting_history) (Refused, Init, 0) = (Passed, Init, 0).
+   Ev (t 86398) None true; Ev (t 86400 + 500000000) None false; Ev (t 86401) None false;
+   Ev (t 86401 + 1) None false].
+Example C28_witness_dayend_fixed :
+  let c := CEvents 0 PPassword dayend_history (exec (new PPassword) dayend_history) in
+  agree c = true /\ pcheck c = true /\
+  skipn 3 (exec (new PPassword) dayend_history)
+    = [(Failed, Locked 4 (t 86401) (t 86401), 0); (Refused, Locked 4 (t 86401) (t 86401), 0);
+       (Refused, Locked 4 (t 86401) (t 86401), 0); (Passed, Init, 0)].
 Proof. vm_compute. repeat split; reflexivity. Qed.
+Example C28_witness_dayend_prefix :
+  skipn 3 (exec_prefix (new PPassword) dayend_history)
+    = [(Failed, Locked 4 (t 86400) (t 86401), 0); (Passed, Init, 0); (Passed, Init, 0); (Passed, Init, 0)] /\
+  pcheck (CEvents 0 PPassword dayend_history (exec_prefix (new PPassword) dayend_history)) = false.
+Proof. vm_compute. split; reflexivity. Qed.
 
 (* the same at sub-second scale for TOTP: failure 0.5 s before the step ends *)
-Example C28_witness_refuted_totp :
+Example C28_witness_stepend :
   let l := [Ev (t 29 + 500000000) None true; Ev (t 30 + 200000000) None false] in
   exec (new (PTotp 30)) l
+  = [(Failed, Locked 1 (t 30 + 500000000) (t 30 + 500000000), 0);
+     (Refused, Locked 1 (t 30 + 500000000) (t 30 + 500000000), 0)] /\
+  exec_prefix (new (PTotp 30)) l
   = [(Failed, Locked 1 (t 30) (t 30 + 500000000), 0); (Passed, Init, 0)].
-Proof. vm_compute. reflexivity. Qed.
+Proof. vm_compute. split; reflexivity. Qed.
 
 (* C28_agree_implies_property: case_ok holds of real policies *)
 Example C28_witness_case_ok :
